@@ -134,7 +134,8 @@ func TestC04WitnessForeignMajorityN4(t *testing.T) {
 	e.run(67, []base.Ballot{e.ballot(0, f, x2), e.ballot(1, g, x1), e.ballot(2, f, x2), e.ballot(3, f, x2)})
 }
 
-// class 1, default threshold, nobody expels himself: 7 members; n0..n4 vote fact F that expels n5; n5 (not knowing) votes G that expels n6
+// two expel facts, default threshold, nobody expels himself: 7 members; n0..n4 vote fact F that expels n5; n5 (not knowing) votes G that
+// expels n6. Whichever group is counted first the voteproof is refused (here F's own group: class 2, 5 of the 6 nodes left voted)
 func TestC04WitnessForeignMajorityN7(t *testing.T) {
 	e := newC04wenv(t, 7)
 	f, g := valuehash.RandomSHA256(), valuehash.RandomSHA256()
